@@ -149,7 +149,15 @@ def build_program(t, vals, mask, spell, ctx):
     n = len(vals)
     names = [('var', 'v%d' % i) for i in range(n)]
     e = subst_const(to_ast(t, mask, names), vals, spell)
-    gl = [('val', 'k%d' % i, lit32(vals[i])) for i in range(n) if mask[i] and spell[i]]
+    gl = []
+    for i in range(n):
+        if mask[i] and spell[i]:
+            if (vals[i] + i) % 3 == 0:
+                # a chain of abbreviations: val j = <literal>; val k = j   (or j + 0 / j - 0)
+                gl.append(('val', 'j%d' % i, lit32(vals[i])))
+                gl.append(('val', 'k%d' % i, [('var', 'j%d' % i), ('bin', '+', ('var', 'j%d' % i), ('num', 0)), ('bin', '-', ('var', 'j%d' % i), ('num', 0))][(vals[i] // 3) % 3]))
+            else:
+                gl.append(('val', 'k%d' % i, lit32(vals[i])))
     gl += [('var', 'v%d' % i) for i in range(n) if not mask[i]]
     init = [('ass', ('var', 'v%d' % i), lit32(vals[i])) for i in range(n) if not mask[i]]
     procs = []
